@@ -6,7 +6,8 @@ there - the standing proof that the check is not vacuous."""
 PLAN = {
     "C01": dict(
         quick=[("lit_finish_exit", dict(shuffle=8)), ("lit_foreign_finish", dict(cap=1000, shuffle=6)), ("lit_child_other", dict(cap=1000, shuffle=6)), "lit_local_scope",
-               ("lit_spawn_sweep", dict(cap=1000, shuffle=6)), ("par4", dict(shuffle=4)), ("over5_d", dict(cap=600))],
+               ("lit_spawn_sweep", dict(cap=1000, shuffle=6)), ("par4", dict(shuffle=4)), ("over5_d", dict(cap=600)),
+               ("stress:tree4", dict(rounds=200, threads=6)), ("stress:over5_d", dict(rounds=150, threads=4, cfg=dict(K=2)))],
         thorough=["lit_finish_exit", "lit_foreign_finish", "lit_child_other", "lit_local_scope", "lit_attach_other", "lit_spawn_sweep", "par4", "par5",
                   "over5_d", "tree5", ("sim_par3", dict(cap=6000))],
         vacuity=[("lit_finish_exit", ["FixRecv"])],
@@ -17,7 +18,7 @@ PLAN = {
     ),
     "C03": dict(
         quick=[("lit_finish_exit_c", dict(shuffle=8)), ("lit_foreign_finish_c", dict(cap=1000, shuffle=6)), ("lit_child_other_c", dict(cap=1000, shuffle=6)), ("par4_c", dict(shuffle=4)),
-               ("att4_c", dict(cap=800)), ("tree4_c", dict(cap=1200))],
+               ("att4_c", dict(cap=800)), ("tree4_c", dict(cap=1200)), ("stress:tree4_c", dict(rounds=200, threads=6))],
         thorough=["lit_finish_exit_c", "lit_foreign_finish_c", "lit_child_other_c", "par4_c", "par5_c", "att4_c", "tree4_c", ("sim_par3_c", dict(cap=6000))],
         vacuity=[("lit_finish_exit_c", ["FixRecv"])],
     ),
@@ -31,18 +32,20 @@ PLAN = {
         thorough=["smp4", "smp_mixed", ("smp5", dict(cap=20000, timeout=2400))],
     ),
     "C06": dict(
-        quick=[("att4", dict(cap=1500)), ("att4_c", dict(cap=800)), ("lit_attach_other", dict(cap=800)), ("twin4", dict(cap=600))],
+        quick=[("att4", dict(cap=1500)), ("att4_c", dict(cap=800)), ("lit_attach_other", dict(cap=800)), ("twin4", dict(cap=600)),
+               ("stress:att4", dict(rounds=200, threads=6))],
         thorough=["att4", "att5", "att4_c", "lit_attach_other", "twin4", ("sim_att", dict(cap=6000))],
         vacuity=[("cancel4_d", ["FixCancelDefault"])],
     ),
     "C07": dict(
-        quick=["hostile4", "notready4", ("over5_d", dict(cap=500)), "extra:teardown", "extra:teardown_c", "extra:teardown_k1"],
+        quick=["hostile4", ("notready4", dict(cap=600)), ("over5_d", dict(cap=500)), "extra:teardown", "extra:teardown_c", "extra:teardown_k1",
+               ("stress:hostile4", dict(rounds=150, threads=4))],
         thorough=["hostile4", "hostile5", "notready4", "over5_d", "over5_c", "extra:teardown", "extra:teardown_c", "extra:teardown_k1"],
         vacuity=[("hostile4", ["FixEmptyToken"]), ("hostile4", ["FixReentrant"]), ("hostile4", ["FixStackFull"])],
     ),
     "C08": dict(
         quick=["lit_finish_exit", "lit_foreign_finish", ("lit_spawn_sweep", dict(cap=800)), "par4", ("over5_d", dict(cap=800)), ("cancel4_c", dict(cap=400)),
-               "extra:churn_late", "extra:churn_mixed"],
+               "extra:churn_late", "extra:churn_mixed", ("stress:tree4", dict(rounds=200, threads=6))],
         thorough=["lit_finish_exit", "lit_foreign_finish", "lit_spawn_sweep", "par4", "par5", "over5_d", "cancel4_c", ("sim_par3", dict(cap=6000)),
                   "extra:churn_late", "extra:churn_mixed"],
         vacuity=[("lit_finish_exit", ["FixRecv"]), ("over5_d", ["FixFifo"])],
@@ -64,14 +67,14 @@ PLAN = {
         vacuity=[("ctx4", ["FixEmptyToken"])],
     ),
     "C17": dict(
-        quick=[("lc5", dict(cap=2000))],
-        thorough=["lc5", ("lc6", dict(cap=20000, timeout=2400))],
+        quick=[("lc5", dict(cap=1500)), ("lc_open", dict(cap=1000)), ("scope_open", dict(cap=3000))],
+        thorough=["lc5", "lc_open", "scope_open", ("lc6", dict(cap=20000, timeout=2400))],
     ),
 }
 PLAN["C18"] = dict(
     level="exploration",
-    quick=[("time_tree4", dict(cap=700)), ("time_lc5", dict(cap=500)), ("time_att4", dict(cap=500))],
-    thorough=[("time_tree4", dict(cap=2700)), ("time_lc5", dict(cap=4000)), ("time_att4", dict(cap=2200))],
+    quick=[("time_tree4", dict(cap=600)), ("time_lc5", dict(cap=400)), ("time_att4", dict(cap=400)), ("lc_open", dict(cap=500)), ("scope_open", dict(cap=3000))],
+    thorough=[("time_tree4", dict(cap=2700)), ("time_lc5", dict(cap=4000)), ("time_att4", dict(cap=2200)), "lc_open", "scope_open"],
 )
 PLAN["C13"] = dict(
     quick=["poll_fut_c", "poll_fut_d", "poll_eop", "poll_fut2_c"],
@@ -84,7 +87,7 @@ PLAN["C14"] = dict(
     vacuity=[("poll_str_c", ["FixInSpan"])],
 )
 PLAN["C16"] = dict(
-    quick=["notready4", "disabled4", ("hostile4", dict(cap=800))],
+    quick=[("notready4", dict(cap=1200)), ("disabled4", dict(cap=1200)), ("hostile4", dict(cap=800))],
     thorough=["notready4", "disabled4", "hostile4", "hostile5"],
     needs_off=True,
 )
